@@ -438,4 +438,5 @@ func init() {
 			s.deliverAll(c...)
 		}},
 	}
+	corpusList = append(corpusList, headerCorpus()...)
 }
